@@ -9,6 +9,7 @@ w_0 <= ... <= w_(M-1) constrained only by the facts that are linear in the entri
 
     sum_i w_i = Re trace(a)                (trace = sum of eigenvalues)
 
+The variables are cached per matrix (the same matrix validated twice gets the same eigenvalues).
 This is an OVER-approximation: every real eigenvalue vector satisfies the constraints, but so do vectors that are
 not eigenvalues.  Consequences, which the checks using it must state:
 
@@ -46,6 +47,9 @@ def eigvalsh(a, UPLO='L'):
         raise _ctx.Escape('symx: eigvalsh model needs one square matrix')
     n = A.shape[0]
     cx = _ctx.cur()
+    key = ('eigvalsh', tuple(cx._atom_key('e', _coerce(e)) for e in A.reshape(-1)))
+    if key in cx.atoms:
+        return cx.atoms[key].copy()
     tr = SNum.const(0)
     for i in range(n):
         tr = tr + _coerce(A[i, i])
@@ -60,7 +64,9 @@ def eigvalsh(a, UPLO='L'):
         if i:
             cx._add_def(out[i - 1] <= out[i])
     cx._add_def(tot == tr)
-    return wrap(out)
+    out = wrap(out)
+    cx.atoms[key] = out
+    return out.copy()
 
 
 def install():
